@@ -260,6 +260,9 @@ def obligations_for(prop, ur):
 def write_replay(prop, ob, ur, extra=None):
     os.makedirs(REPLAYS, exist_ok=True)
     safe = ob['id'].replace('/', '_').replace(':', '_').replace('@', '_').replace('#', '-').replace('[', '_').replace(']', '_')
+    if len(safe) > 100:
+        import hashlib as _h
+        safe = safe[:88] + '-' + _h.sha1(ob['id'].encode()).hexdigest()[:8]
     path = os.path.join(REPLAYS, '%s-%s.json' % (prop, safe))
     d = ob.get('diag') or {}
     fninfo = [f for f in ur['g'].functions if f['id'] == ob['fn']]
